@@ -116,8 +116,15 @@ func (x *Exec) predEnv(pd *PredDef, c *ast.CallExpr, env *SpecEnv) *SpecEnv {
 				v = TV{V: x.constToSort(cv, s)}
 			}
 		}
-		if v.T == nil && p.Type != "" {
-			v.T = x.resolveGoType(p.Type)
+		if p.Type != "" {
+			if v.T == nil {
+				v.T = x.resolveGoType(p.Type)
+			} else if _, isIface := v.T.Underlying().(*types.Interface); isIface && !isErrorType(v.T) {
+				// an interface value passed where the predicate expects a concrete pointer: viewed as that type
+				if ct := x.resolveGoType(p.Type); ct != nil {
+					v.T = ct
+				}
+			}
 		}
 		n.vars[p.Name] = v
 	}
@@ -474,6 +481,7 @@ func (x *Exec) specSelector(e *ast.SelectorExpr, env *SpecEnv) TV {
 		_ = g
 		return TV{V: tSelect(x.getHeap(env.st, x.ghostKey(structName(base.T)+"."+e.Sel.Name)).(Term), base.V.(Term))}
 	}
+	base.T = x.viewIface(base.T, e.X, env)
 	obj, idx, _ := types.LookupFieldOrMethod(base.T, true, x.pkg.Types, e.Sel.Name)
 	f, ok := obj.(*types.Var)
 	if !ok {
@@ -1244,6 +1252,26 @@ func (x *Exec) specLockClass(e ast.Expr, env *SpecEnv) string {
 	return structName(t) + "." + se.Sel.Name
 }
 
+// viewIface: an interface-typed spec value is viewed as its one implementation (unique in the build, or
+// named by an `impl` directive for the field it is read from).
+func (x *Exec) viewIface(t types.Type, from ast.Expr, env *SpecEnv) types.Type {
+	it, isIface := t.Underlying().(*types.Interface)
+	if !isIface || isErrorType(t) {
+		return t
+	}
+	if ct := x.uniqueImpl(it); ct != nil {
+		return ct
+	}
+	if inner, ok := unparen(from).(*ast.SelectorExpr); ok {
+		if ib := x.specValue(inner.X, env); ib.T != nil {
+			if ct := x.implOfField(structName(ib.T), inner.Sel.Name); ct != nil {
+				return ct
+			}
+		}
+	}
+	return t
+}
+
 func (x *Exec) specClosed(e ast.Expr, env *SpecEnv) Term {
 	se, ok := unparen(e).(*ast.SelectorExpr)
 	if ok {
@@ -1259,6 +1287,7 @@ func (x *Exec) specClosed(e ast.Expr, env *SpecEnv) Term {
 		}
 		base := x.specValue(se.X, env)
 		if base.T != nil {
+			base.T = x.viewIface(base.T, se.X, env)
 			_, idx, _ := types.LookupFieldOrMethod(base.T, true, x.pkg.Types, se.Sel.Name)
 			if len(idx) > 0 {
 				t := base.T
